@@ -432,17 +432,18 @@ pub fn c14_case(ms: &[Member], l: &mut Local) {
         l.violation("compound-size-is-not-sum-of-members", show, || format!("calculate_size() = {}, members sum to {}", n, concat.len()));
         return;
     }
-    let mut buf = vec![0xA5u8; n];
+    let mut buf = crate::engine::place::OutBuf::new(n, |_| 0xA5);
     l.transitions += 1;
     let w = build::DynW(&cb).write_into(&mut buf).map_err(build::werr);
     if w != Ok(n) {
         l.violation("compound-write-differs-from-announced", show, || format!("announced {}, write_into = {:?}", n, w));
         return;
     }
+    let mut buf = buf.into_vec();
     // the public unchecked writer with room to spare: a compound has no length field of its own, so the spare bytes
     // change nothing - the same n bytes, nothing beyond them
     {
-        let mut big = vec![0xA5u8; n + 12];
+        let mut big = crate::engine::place::OutBuf::new(n + 12, |_| 0xA5);
         l.transitions += 1;
         let m = cb.write_into_unchecked(&mut big);
         let mut head = big[..n].to_vec();
